@@ -1245,6 +1245,14 @@ impl<'a, 'b, W: Write> Serializer for &'a mut YamlSerializer<'b, W> {
                 return Ok(());
             }
 
+            // A block scalar is written without an anchor (`key: >`). Forget the pending one
+            // instead of leaving it to attach itself to the next scalar, where a later alias
+            // would stand for the wrong value: the next occurrence of this allocation is then
+            // written out in full again.
+            if let Some(id) = self.pending_anchor_id.take() {
+                self.anchors.retain(|_, known| *known != id);
+            }
+
             match style {
                 StrStyle::Literal => {
                     // Determine trailing newline count to select chomp indicator:
